@@ -71,6 +71,7 @@ class _Collect(logging.Handler):
 
 
 _LOG = _Collect()
+_DEADLINE: float | None = None
 
 
 def _init_worker() -> None:
@@ -151,7 +152,10 @@ def _execute(row: cat.Row, opts: dict, spec: dict, seed: int) -> dict:
     pre = row.pre(opts)
     _LOG.msgs.clear()
     sink = io.StringIO()
-    signal.setitimer(signal.ITIMER_REAL, row.timeout)
+    limit = row.timeout
+    if _DEADLINE is not None:    # never run far past the tier's budget
+        limit = min(limit, max(5.0, _DEADLINE - time.time() + 5.0))
+    signal.setitimer(signal.ITIMER_REAL, limit)
     try:
         with contextlib.redirect_stdout(sink):
             if pre is not None:
@@ -275,7 +279,9 @@ def judge(rowname: str, opts: dict, spec: dict, seed: int) -> dict:
 
 # ------------------------------------------------------------------ workers
 def _chunk(job: tuple) -> dict:
-    rowname, tier, seed, opts, lo, hi = job
+    global _DEADLINE
+    rowname, tier, seed, opts, lo, hi, deadline = job
+    _DEADLINE = deadline
     row = cat.ROWS[rowname]
     dom = domain_of(row, tier, seed, opts)
     agg: dict[str, Any] = {
@@ -284,6 +290,8 @@ def _chunk(job: tuple) -> dict:
         'pre_errors': {}, 'notok': {},
     }
     for i in range(lo, hi):
+        if time.time() > deadline:      # budget exhausted: return the prefix
+            break
         spec = dom[i]
         r = judge(rowname, opts, spec, seed)
         agg['cases'] += 1
@@ -311,8 +319,9 @@ def _chunk(job: tuple) -> dict:
     return agg
 
 
-def _plan(tier: str, seed: int, only: set | None = None) -> list[list[tuple]]:
-    """Per row: the list of chunks (each ~1.5 s of estimated work)."""
+def _plan(tier: str, seed: int, deadline: float,
+          only: set | None = None) -> list[list[tuple]]:
+    """Per row: the list of chunks (each ~0.5 s of estimated work)."""
     plans = []
     for name, row in cat.ROWS.items():
         if only and name not in only:
@@ -320,9 +329,10 @@ def _plan(tier: str, seed: int, only: set | None = None) -> list[list[tuple]]:
         jobs = []
         for opts in row.options(tier, seed):
             n = len(domain_of(row, tier, seed, opts))
-            step = max(1, int(1.5 / row.weight))
+            step = max(1, int(0.5 / row.weight))
             for lo in range(0, n, step):
-                jobs.append((name, tier, seed, opts, lo, min(n, lo + step)))
+                jobs.append((name, tier, seed, opts, lo, min(n, lo + step),
+                             deadline))
         # simplest first inside a row: low indices of every option first
         jobs.sort(key=lambda j: j[4])
         plans.append(jobs)
@@ -331,7 +341,10 @@ def _plan(tier: str, seed: int, only: set | None = None) -> list[list[tuple]]:
 
 def run(ctx: Ctx) -> None:
     only = set(filter(None, os.environ.get('C10_ONLY', '').split(','))) or None
-    plans = _plan(ctx.tier, ctx.seed, only)
+    budget = QUICK_BUDGET if ctx.quick else THOROUGH_BUDGET
+    budget = float(os.environ.get('C10_BUDGET', budget))   # development aid
+    deadline = ctx.t0 + budget
+    plans = _plan(ctx.tier, ctx.seed, deadline, only)
     _DOM_CACHE.clear()
     total = {p[0][0]: sum(j[5] - j[4] for j in p) for p in plans if p}
     # round-robin over rows so that a time cap trims the tail of every row
@@ -340,15 +353,12 @@ def run(ctx: Ctx) -> None:
         for p in plans:
             if k < len(p):
                 jobs.append(p[k])
-    budget = QUICK_BUDGET if ctx.quick else THOROUGH_BUDGET
-    budget = float(os.environ.get('C10_BUDGET', budget))   # development aid
-    deadline = ctx.t0 + budget
     done: dict[str, int] = {}
     nontrivial = 0
     viols: list[tuple] = []
     per_row: dict[str, dict] = {}
     for agg in pmap(_chunk, jobs, procs=ctx.procs, initfn=_init_worker,
-                    deadline=deadline):
+                    deadline=deadline + 30.0):
         name = agg['row']
         done[name] = done.get(name, 0) + agg['cases']
         nontrivial += agg['acts']
